@@ -44,4 +44,7 @@ def main() -> int:
 
 
 if __name__ == "__main__":
-    sys.exit(main())
+    rc = main()
+    sys.stdout.flush()
+    # threads of a deadlocked tree under test must not keep the process alive (concurrent.futures joins its workers at exit)
+    os._exit(rc)
